@@ -231,8 +231,32 @@ func c12OrderAxioms(t *testing.T, r *h.Runner) {
 			}
 		}
 	}
+	// every pair of byte strings of length <= 3 over an alphabet around the
+	// separator (NUL, 0x01, '-', '.', '/', '0', 'a', 0xff): agreement with the
+	// component order (a total order, so antisymmetry/totality/transitivity follow)
+	alpha := []byte{0, 1, '-', '.', '/', '0', 'a', 0xff}
+	short := []string{""}
+	for l, prev := 1, []string{""}; l <= 3; l++ {
+		var next []string
+		for _, p := range prev {
+			for _, b := range alpha {
+				next = append(next, p+string([]byte{b}))
+			}
+		}
+		short = append(short, next...)
+		prev = next
+	}
+	for _, a := range short {
+		for _, b := range short {
+			n++
+			if got, want := sign(fsutil.ComparePath(a, b)), h.CmpComponents(a, b); got != want {
+				bad(fmt.Sprintf("ComparePath(%q,%q)=%d, component order says %d", a, b, got, want), map[string]any{"a": h.BStr(a), "b": h.BStr(b)})
+				return
+			}
+		}
+	}
 	r.CountN(n, n/2, "order-axioms")
-	r.Sample(map[string]any{"order_axiom_paths": len(ps), "example": []string{"foo/a", "foo.2", "a\x01/b"}})
+	r.Sample(map[string]any{"order_axiom_paths": len(ps), "order_short_strings": len(short), "example": []string{"foo/a", "foo.2", "a\x01/b"}})
 }
 
 // genC12 builds random sequences by mutating legal listings, including deep
